@@ -160,7 +160,15 @@ func (c *compressor) writeBlock() {
 	c.next = 0
 
 	b := c.buf.Bytes()
-	i := bytes.Index(b, bgzfExtraPrefix)
+	// Search from the extra field, which follows the 10 byte fixed
+	// header and the 2 byte XLEN; MTIME can hold the same bytes.
+	i := -1
+	if len(b) > 12 {
+		i = bytes.Index(b[12:], bgzfExtraPrefix)
+		if i >= 0 {
+			i += 12
+		}
+	}
 	if i < 0 {
 		c.err = gzip.ErrHeader
 		return
